@@ -131,6 +131,21 @@ func (s *errorContext) Errors() []error {
 	return s.errors
 }
 
+// copyErrors returns an errorContext that holds the same errors in a backing array of its own, so that AddError on a
+// copied node and on its original can never write into each other's list.
+func (s *errorContext) copyErrors() errorContext {
+	if s.errors == nil {
+		return errorContext{}
+	}
+
+	errorsCopy := make([]error, len(s.errors))
+	copy(errorsCopy, s.errors)
+
+	return errorContext{
+		errors: errorsCopy,
+	}
+}
+
 ///
 
 type RegularQuery struct {
@@ -338,9 +353,7 @@ func (s *SinglePartQuery) copy() *SinglePartQuery {
 	}
 
 	return &SinglePartQuery{
-		errorContext: errorContext{
-			errors: s.errors,
-		},
+		errorContext: s.copyErrors(),
 
 		ReadingClauses:  Copy(s.ReadingClauses),
 		UpdatingClauses: Copy(s.UpdatingClauses),
@@ -476,9 +489,7 @@ func (s *UpdatingClause) copy() *UpdatingClause {
 	}
 
 	return &UpdatingClause{
-		errorContext: errorContext{
-			errors: s.errors,
-		},
+		errorContext: s.copyErrors(),
 
 		Clause: Copy(s.Clause),
 	}
@@ -656,9 +667,7 @@ func (s *Create) copy() *Create {
 	}
 
 	return &Create{
-		errorContext: errorContext{
-			errors: s.errors,
-		},
+		errorContext: s.copyErrors(),
 
 		Unique:  s.Unique,
 		Pattern: Copy(s.Pattern),
@@ -1155,9 +1164,7 @@ func (s *FunctionInvocation) copy() *FunctionInvocation {
 	}
 
 	return &FunctionInvocation{
-		errorContext: errorContext{
-			errors: s.errors,
-		},
+		errorContext: s.copyErrors(),
 
 		Distinct:  s.Distinct,
 		Namespace: Copy(s.Namespace),
